@@ -216,6 +216,9 @@ func (s *V2Session) buildAndSend(ctx context.Context, c ipmi.Command) error {
 			return fmt.Errorf("response is addressed to session %#x, ours is %#x",
 				s.v2SessionLayer.ID, s.LocalID)
 		}
+		if err := responseMatches(&s.messageLayer, c); err != nil {
+			return err
+		}
 		code := s.messageLayer.CompletionCode
 		// must increment here, otherwise we'll miss temporary codes at the
 		// higher levels
